@@ -49,6 +49,9 @@ def plan(ctx):
     cases = [("gap", i) for i in range(700 * k)]
     cases += [("sym", i) for i in range(200 * k)]
     cases += [("map", i) for i in range(300 * k)]
+    if ctx.thorough:      # larger sizes live in their own kinds so that a replay never depends on the tier
+        cases += [("gap_big", i) for i in range(1500)]
+        cases += [("map_big", i) for i in range(400)]
     return cases
 
 
@@ -60,7 +63,7 @@ def dyadic(x, k):
     return np.round(np.asarray(x, dtype=float) * 2.0 ** k) / 2.0 ** k
 
 
-def gen_pattern(rng, pattern=None, force_dyadic=False):
+def gen_pattern(rng, pattern=None, force_dyadic=False, nmax=61):
     """one observation pattern: declared BMJD doubles (in the order given to RVData), period value + unit, n_bins,
     optional explicit reference epoch"""
     if pattern is None:
@@ -68,7 +71,7 @@ def gen_pattern(rng, pattern=None, force_dyadic=False):
     t0 = float(rng.choice([50000.0, 55123.25, 58000.5, 59999.75]))
     unit = str(rng.choice(["day", "yr", "hour", "min"], p=[0.55, 0.15, 0.15, 0.15]))
     ud = float(UNIT_DAYS[unit])
-    n = int(rng.integers(2, 61))
+    n = int(rng.integers(2, nmax))
     tref = None
     nb = int(rng.choice([1, 2, 3, 4, 5, 7, 8, 10, 16, 25, 50, int(rng.integers(1, 51))]))
     if pattern == "uniform":
@@ -422,8 +425,8 @@ def sym_case(ctx, g, rng):
 # MAP_sample
 
 
-def gen_table(rng):
-    n = int(rng.choice([1, 2, 3, int(rng.integers(1, 12)), int(rng.integers(1, 201))]))
+def gen_table(rng, nmax=201):
+    n = int(rng.choice([1, 2, 3, int(rng.integers(1, 12)), int(rng.integers(1, nmax))]))
     kind = str(rng.choice(["generic", "prior_decides", "ties", "neginf", "big"], p=[0.25, 0.3, 0.2, 0.15, 0.1]))
     ll = rng.normal(-50, 20, n)
     lp = rng.normal(-10, 3, n)
@@ -489,9 +492,9 @@ def row_of(s, i=None):
     return out
 
 
-def map_case(ctx, g, rng):
+def map_case(ctx, g, rng, nmax=201):
     from thejoker.samples_analysis import MAP_sample
-    tb = gen_table(rng)
+    tb = gen_table(rng, nmax)
     s = build_table(tb)
     n = tb["n"]
     row, idx = MAP_sample(s, return_index=True)
@@ -563,6 +566,10 @@ def run_case(ctx, g):
         sym_case(ctx, g, rng)
     elif kind == "map":
         map_case(ctx, g, rng)
+    elif kind == "gap_big":
+        check_pattern(ctx, g, gen_pattern(rng, nmax=400))
+    elif kind == "map_big":
+        map_case(ctx, g, rng, nmax=20000)
     else:
         raise core.Infra(f"unknown case kind {kind}")
 
